@@ -1190,6 +1190,7 @@ DOTTED_FILES = {
 }
 
 
+@iso.tmp_cleaned
 def _dotted_child(_job):
     import importlib
     import os
